@@ -380,6 +380,7 @@ type result struct {
 	Trunc    int    `json:"trunc"`
 	GoVer    string `json:"gover"`
 	Reused   bool   `json:"reused"`
+	Debug    string `json:"debug,omitempty"` // RunContext.Debug names this group
 	Alias    string `json:"alias,omitempty"` // product / deep sweeps: the GODEBUG=gotypesalias mode of the child process
 	File     string `json:"file"` // disk: the analysed bytes are on disk; mem: nothing at the file's path; stale: a shorter, older version
 	LoadErr  string `json:"load_err,omitempty"`
@@ -397,6 +398,15 @@ type ctxT struct {
 	// exists in memory only ("mem": captures are printed, not sliced), or one whose saved version is an older, shorter one
 	// ("stale": captures inside the saved prefix are sliced, the others printed, one straddles the end)
 	file string
+	// debug: RunContext.Debug names the first rule of the engine
+	debug bool
+}
+
+func dbgGroup(c ctxT) string {
+	if c.debug {
+		return "g0"
+	}
+	return ""
 }
 
 var miniImporter types.Importer
@@ -459,7 +469,7 @@ func locate(tmp string, fr filt.Rule, c ctxT) string {
 		if err != nil {
 			return false
 		}
-		_, _, pmsg := run(eng, t, c.trunc, c.gover, nil)
+		_, _, pmsg := runDebug(eng, t, c.trunc, c.gover, nil, nil, dbgGroup(c))
 		return pmsg != ""
 	}
 	if try("") {
@@ -496,12 +506,22 @@ func run(e *ruleguard.Engine, t *hutil.Target, trunc int, gover string, state *r
 
 // runCounted is run that also counts the reports per rule group.
 func runCounted(e *ruleguard.Engine, t *hutil.Target, trunc int, gover string, state *ruleguard.RunnerState, perGroup map[string]int) (n int, bads []bad, panicMsg string) {
+	return runDebug(e, t, trunc, gover, state, perGroup, "")
+}
+
+// runDebug: debugGroup != "" turns on RunContext.Debug for that group (every rejection of its rules is printed: the position
+// of the match, the text and the type of every capture).
+func runDebug(e *ruleguard.Engine, t *hutil.Target, trunc int, gover string, state *ruleguard.RunnerState, perGroup map[string]int, debugGroup string) (n int, bads []bad, panicMsg string) {
 	defer func() {
 		if r := recover(); r != nil {
 			panicMsg = fmt.Sprint(r)
 		}
 	}()
 	ctx := &ruleguard.RunContext{Pkg: t.Pkg, Types: t.Info, Sizes: types.SizesFor("gc", "amd64"), Fset: t.Fset, TruncateLen: trunc, State: state}
+	if debugGroup != "" {
+		ctx.Debug = debugGroup
+		ctx.DebugPrint = func(string) {}
+	}
 	ctx.Report = func(data *ruleguard.ReportData) {
 		n++
 		b := bad{}
@@ -645,15 +665,15 @@ func main() {
 			}
 		}
 	}
-	ctxs := []ctxT{{0, "", false, ""}, {-3, "1.18", true, ""}, {4, "", true, ""}, {0, "", false, "mem"}, {6, "1.18", true, "stale"}}
+	ctxs := []ctxT{{0, "", false, "", false}, {-3, "1.18", true, "", false}, {4, "", true, "", true}, {0, "", false, "mem", false}, {6, "1.18", true, "stale", true}}
 	if *full {
 		ctxs = nil
 		for _, tl := range []int{0, -3, 1, 4, 5, 7, 70} {
 			for _, gv := range []string{"", "1.18"} {
 				for _, ru := range []bool{false, true} {
-					ctxs = append(ctxs, ctxT{tl, gv, ru, ""})
+					ctxs = append(ctxs, ctxT{tl, gv, ru, "", tl == 1 || tl == 7})
 					if (tl == 0 || tl == 5) && (gv == "") == ru {
-						ctxs = append(ctxs, ctxT{tl, gv, ru, "mem"}, ctxT{tl, gv, ru, "stale"})
+						ctxs = append(ctxs, ctxT{tl, gv, ru, "mem", false}, ctxT{tl, gv, ru, "stale", tl == 5})
 					}
 				}
 			}
@@ -716,9 +736,9 @@ func main() {
 			st = ruleguard.NewRunnerState(eng)
 			states[eng] = st
 			// first use, then the run that is observed reuses it
-			run(eng, t, c.trunc, c.gover, st)
+			runDebug(eng, t, c.trunc, c.gover, st, nil, dbgGroup(c))
 		}
-		n, bads, pmsg = run(eng, t, c.trunc, c.gover, st)
+		n, bads, pmsg = runDebug(eng, t, c.trunc, c.gover, st, nil, dbgGroup(c))
 		return
 	}
 	located := 0
@@ -728,7 +748,7 @@ func main() {
 			w = r.in.d.Go()
 		}
 		enc.Encode(result{K: "run", Inst: r.in.name, Ctor: r.in.ctor, Shape: r.sh.name, Pattern: r.sh.pattern, Where: w, Extra: r.extra, Do: r.do, Site: site,
-			Trunc: c.trunc, GoVer: c.gover, Reused: c.reused, File: c.file, LoadErr: lerr, Panic: pmsg, Bad: bads, Reports: n})
+			Trunc: c.trunc, GoVer: c.gover, Reused: c.reused, File: c.file, Debug: map[bool]string{true: "the first rule of the engine"}[c.debug], LoadErr: lerr, Panic: pmsg, Bad: bads, Reports: n})
 	}
 	emit := func(r ruleT, c ctxT, n int, bads []bad, pmsg, lerr string) { emitAt(r, c, n, bads, pmsg, lerr, "") }
 	for _, c := range ctxs {
@@ -764,7 +784,7 @@ func main() {
 	}
 	for tl := -3; tl <= 70; tl++ {
 		for _, gv := range []string{"", "1.21"} {
-			c := ctxT{tl, gv, tl%2 == 0, []string{"", "mem", "stale"}[(tl+3)%3]}
+			c := ctxT{tl, gv, tl%2 == 0, []string{"", "mem", "stale"}[(tl+3)%3], tl%5 == 0}
 			n, bads, pmsg, lerr := runSet(small, c, false)
 			enc.Encode(result{K: "render", Inst: "true", Shape: "all", Trunc: tl, GoVer: gv, Reused: c.reused, File: c.file, LoadErr: lerr, Panic: pmsg, Bad: bads, Reports: n})
 		}
